@@ -61,6 +61,8 @@ func cmdVC(args []string) {
 	tier := fs.String("tier", "quick", "quick|thorough")
 	class := fs.String("class", "", "only obligations of these classes (comma separated)")
 	verbose := fs.Bool("v", false, "print every obligation")
+	fs.IntVar(&budgetOverride, "budget", 0, "per-solver seconds")
+	quiet := fs.Bool("q", false, "only per-function totals")
 	fs.Parse(args)
 	w, cs := loadAll(*repo)
 	re := regexp.MustCompile(*pat)
@@ -100,6 +102,9 @@ func cmdVC(args []string) {
 			fmt.Println("    UNSUPPORTED:", u)
 		}
 		for _, r := range res {
+			if *quiet {
+				break
+			}
 			if r.Status != "unsat" || *verbose {
 				fmt.Printf("    %-8s %-7s %5.2fs %s  [%s]\n", r.Status, r.Solver, r.Seconds, r.Obl.Name, r.Obl.Pos)
 			}
@@ -123,6 +128,3 @@ func cmdList(args []string) {
 	}
 }
 
-func cmdCheck(args []string)    {}
-func cmdReplay(args []string)   {}
-func cmdBaseline(args []string) {}
